@@ -8,6 +8,7 @@ import RosedVerif.Model.JustifyLemmas
 import RosedVerif.Model.InstAFacts
 import RosedVerif.Model.AlignRefine
 import RosedVerif.Model.BridgeAlignCRLF
+import RosedVerif.Model.OpsStructure
 namespace RosedVerif.Props
 open RosedVerif
 
@@ -70,5 +71,66 @@ theorem C12_code_points_needs_spTail :
       .ok [0x600, 0x20, 0x61] ∧
     justifyLine cxB [[0x600, 0x20], [0x20], [0x61]] 0 = .ok [[0x600, 0x20], [0x20], [0x61]] :=
   BridgeAlignCRLF.spTail_needed_justify
+
+open RosedVerif.OpsStructure
+
+/-- JustifyLastLine off (the default), non-paragraph mode, any well-formed context (arbitrary code points included) and any editor, sub-editors too: every line but the last is replaced by its justification, and the last line WITH EVERYTHING AFTER IT (its terminator, the trailing separator) is byte-for-byte the input's tail; the result carries the receiver's Options -/
+theorem C12_last_line_untouched {α : Type} [DecidableEq α] (cx : Ctx α) (hs : cx.Sane)
+    (hd : cx.dLineSep ≠ [])
+    (ed : Editor α)
+    (width : Int)
+    (o : Options α)
+    (hpp : (o.withDefaults cx).preservePara = false)
+    (hjl : (o.withDefaults cx).justifyLast = false) :
+    ed.justifyOpts cx width o =
+        .ok (ed.withText
+          ((((inLines cx ed o).dropLast).map
+              (fun l => justified cx l width ++ (o.withDefaults cx).lineSep)).flatten ++
+            ed.text.drop (headText (o.withDefaults cx).lineSep (inLines cx ed o)).length)) ∧
+      ed.text = headText (o.withDefaults cx).lineSep (inLines cx ed o) ++
+        ed.text.drop (headText (o.withDefaults cx).lineSep (inLines cx ed o)).length :=
+  justifyOpts_notLast_sane cx hs hd ed width o hpp hjl
+
+/-- Justify leaves the number of lines unchanged: output line i is the justified input line i, the last line is the input's last line (unbordered separator that no justified line contains) -/
+theorem C12_line_count {α : Type} [DecidableEq α] (cx : Ctx α) (hb : ∀ a, 0 < cx.blen a)
+    (hd : cx.dLineSep ≠ [])
+    (ed : Editor α)
+    (width : Int)
+    (o : Options α)
+    (J : List α → List α)
+    (hpp : (o.withDefaults cx).preservePara = false)
+    (hjl : (o.withDefaults cx).justifyLast = false)
+    (hJ : ∀ l ∈ (inLines cx ed o).dropLast, justifyLine cx l width = .ok (J l))
+    (hnil : (o.withDefaults cx).noTrailing = true → justifyLine cx [] width = .ok [])
+    (hu : Unbordered (o.withDefaults cx).lineSep)
+    (hfree : ∀ l ∈ (inLines cx ed o).dropLast, indexOf (o.withDefaults cx).lineSep (J l) = none) :
+    ∃ r, ed.justifyOpts cx width o = .ok r ∧ r.opts = ed.opts ∧
+      (splitOn r.text (o.withDefaults cx).lineSep).length =
+        (splitOn ed.text (o.withDefaults cx).lineSep).length ∧
+      ∀ i, i < (inLines cx ed o).length →
+        (splitOn r.text (o.withDefaults cx).lineSep).getD i [] =
+          (if i + 1 < (inLines cx ed o).length then J ((inLines cx ed o).getD i [])
+           else (inLines cx ed o).getD i []) ∧
+        (splitOn ed.text (o.withDefaults cx).lineSep).getD i [] = (inLines cx ed o).getD i [] :=
+  justifyOpts_notLast_lines cx hb hd ed width o J hpp hjl hJ hnil hu hfree
+
+/-- the same with JustifyLastLine on: every line, the last included, is replaced by its justification and the line count is unchanged -/
+theorem C12_line_count_justifyLast {α : Type} [DecidableEq α] (cx : Ctx α) (ed : Editor α)
+    (width : Int)
+    (o : Options α)
+    (J : List α → List α)
+    (hpp : (o.withDefaults cx).preservePara = false)
+    (hjl : (o.withDefaults cx).justifyLast = true)
+    (hJ : ∀ l ∈ inLines cx ed o, justifyLine cx l width = .ok (J l))
+    (hsep : (o.withDefaults cx).lineSep ≠ [])
+    (hu : Unbordered (o.withDefaults cx).lineSep)
+    (hfree : ∀ l ∈ inLines cx ed o, indexOf (o.withDefaults cx).lineSep (J l) = none) :
+    ∃ r, ed.justifyOpts cx width o = .ok r ∧ r.opts = ed.opts ∧
+      (splitOn r.text (o.withDefaults cx).lineSep).length =
+        (splitOn ed.text (o.withDefaults cx).lineSep).length ∧
+      ∀ i, i < (inLines cx ed o).length →
+        (splitOn r.text (o.withDefaults cx).lineSep).getD i [] = J ((inLines cx ed o).getD i []) ∧
+        (splitOn ed.text (o.withDefaults cx).lineSep).getD i [] = (inLines cx ed o).getD i [] :=
+  justifyOpts_all_lines cx ed width o J hpp hjl hJ hsep hu hfree
 
 end RosedVerif.Props
